@@ -379,9 +379,42 @@ where
         }
 
         // ---------------- gradients: transformed Grad inputs observed through X,Y,Z
-        let gx: Vec<Grad> = xs.iter().map(|x| Grad::new(*x, 1.0, 0.0, 0.0)).collect();
-        let gy: Vec<Grad> = ys.iter().map(|y| Grad::new(*y, 0.0, 1.0, 0.0)).collect();
-        let gz: Vec<Grad> = zs.iter().map(|z| Grad::new(*z, 0.25, 0.0, 1.0)).collect();
+        // derivative seeds: per batch either the same for every sample
+        // (standard basis, or a sheared basis) or different from sample to
+        // sample - the standard basis first, last or nowhere
+        let seed_mode = rng.below(5);
+        let mut seeds: Vec<[[f32; 3]; 3]> = (0..n)
+            .map(|j| {
+                let basis = [[1.0, 0.0, 0.0], [0.0, 1.0, 0.0], [0.0, 0.0, 1.0]];
+                let shear = [[1.0, 0.0, 0.0], [0.0, 1.0, 0.0], [0.25, 0.0, 1.0]];
+                match seed_mode {
+                    0 => basis,
+                    1 => shear,
+                    _ => {
+                        if (seed_mode == 2 && j == 0) || (seed_mode == 3 && j + 1 == n) {
+                            basis
+                        } else {
+                            let mut r = [[0f32; 3]; 3];
+                            for row in r.iter_mut() {
+                                for e in row.iter_mut() {
+                                    *e = if rng.chance(0.3) { 0.0 } else { rng.uniform(-2.0, 2.0) as f32 };
+                                }
+                            }
+                            r
+                        }
+                    }
+                }
+            })
+            .collect();
+        if seed_mode >= 2 && n >= 2 {
+            st.inc("grad_batches_with_seeds_varying_per_sample");
+        }
+        if seeds.is_empty() {
+            seeds.push([[0.0; 3]; 3]);
+        }
+        let gx: Vec<Grad> = xs.iter().enumerate().map(|(j, x)| Grad::new(*x, seeds[j][0][0], seeds[j][0][1], seeds[j][0][2])).collect();
+        let gy: Vec<Grad> = ys.iter().enumerate().map(|(j, y)| Grad::new(*y, seeds[j][1][0], seeds[j][1][1], seeds[j][1][2])).collect();
+        let gz: Vec<Grad> = zs.iter().enumerate().map(|(j, z)| Grad::new(*z, seeds[j][2][0], seeds[j][2][1], seeds[j][2][2])).collect();
         let gtape = shape.grad_slice_tape(Default::default());
         let mut gev = Shape::<F>::new_grad_slice_eval();
         let ggot: Vec<Grad> = gev.eval_with_transform_and_vars(&gtape, &gx, &gy, &gz, &m, &sv).map(|o| o.to_vec()).map_err(|e| v("grad_error", e.to_string(), setup()))?;
